@@ -17,11 +17,11 @@ TARGET = _real_os.path.join(REPO, 'playback', 'studio', 'equalizer.py')
 
 WORKER_ONLY = ('worker_exit', 'worker_abort', 'worker_hang', 'worker_late_answer', 'worker_late_death')
 BEHAVIOURS = ['equal', 'different', 'player_raises', 'operation_raises', 'extractor_raises', 'comparator_raises', 'comparator_bare_status', 'slow',
-              'worker_exit', 'worker_abort', 'worker_hang', 'worker_late_answer', 'worker_late_death', 'spawns_helper', 'missing_key']
+              'worker_exit', 'worker_abort', 'worker_hang', 'worker_late_answer', 'worker_late_death', 'spawns_helper', 'missing_key', 'unpicklable_extract']
 
 ALLOWED = {
     'equal': ['Equal'], 'slow': ['Equal'], 'different': ['Different'], 'spawns_helper': ['Equal'],
-    'missing_key': ['EqualizerFailure'],
+    'missing_key': ['EqualizerFailure'], 'unpicklable_extract': ['Equal'],
     'player_raises': ['EqualizerFailure'], 'operation_raises': ['EqualizerFailure'], 'extractor_raises': ['EqualizerFailure'], 'comparator_raises': ['EqualizerFailure'],
     'comparator_bare_status': ['Fixed'],
     'worker_exit': ['EqualizerFailure'], 'worker_abort': ['EqualizerFailure'], 'worker_hang': ['EqualizerFailure'],
@@ -208,7 +208,26 @@ class Extractor(object):
         if isinstance(val, dict):
             # everything the run sent takes part in the comparison
             val = dict(val, emitted=[o.value['args'] for o in outputs if TapeRecorder.OPERATION_OUTPUT_ALIAS not in o.key])
+            if self.world.effective(val.get('tag')) == 'unpicklable_extract':
+                # what the extractor hands to the comparator need not be picklable (a handle, a lazily built view)
+                self.world.run.probe('extractor_result_not_picklable')
+                val['handle'] = Handle(val.get('tag'))
         return val
+
+
+class Handle(object):
+    """Compares by content, refuses to be pickled."""
+
+    def __init__(self, tag):
+        self.tag = tag
+
+    def __eq__(self, other):
+        return isinstance(other, Handle) and other.tag == self.tag
+
+    __hash__ = None
+
+    def __reduce__(self):
+        raise TypeError('cannot pickle a Handle')
 
 
 class Comparator(object):
